@@ -78,6 +78,11 @@ func dynamicReplace(in, out cty.Type) cty.Type {
 		return out
 	case out.IsObjectType():
 		// Objects are compatible with other objects and maps.
+		if !in.IsMapType() && !in.IsObjectType() {
+			// Not compatible (this happens for an optional attribute that the
+			// map element type cannot convert to): out is the best we can do.
+			return out
+		}
 		outTypes := map[string]cty.Type{}
 		if in.IsMapType() {
 			for attr, attrType := range out.AttributeTypes() {
@@ -125,6 +130,10 @@ func dynamicReplace(in, out cty.Type) cty.Type {
 		return out
 	case out.IsTupleType():
 		// Tuples are only compatible with other tuples
+		if !in.IsTupleType() || in.Length() != out.Length() {
+			// Not compatible (see the object case): out is the best we can do.
+			return out
+		}
 		var types []cty.Type
 		for ix := 0; ix < len(out.TupleElementTypes()); ix++ {
 			types = append(types, dynamicReplace(in.TupleElementType(ix), out.TupleElementType(ix)))
